@@ -23,6 +23,7 @@ type C01Op struct {
 	Opts SubOpts `json:"opts,omitempty"`
 	ID   int     `json:"id,omitempty"`
 	Bg   bool    `json:"bg,omitempty"` // Publish instead of PublishContext
+	Any  bool    `json:"any,omitempty"` // publish through an interface-typed value (T = any): reflection dispatch path
 }
 
 // C01Script: what function (Type,Fn) does on its K-th synchronous invocation.
@@ -88,6 +89,7 @@ func genC01(rt *rapid.T) core.Scenario {
 			id++
 			op.ID = id*6 + rapid.IntRange(0, 5).Draw(rt, l+"Res")
 			op.Bg = rapid.Bool().Draw(rt, l+"Bg")
+			op.Any = rapid.IntRange(0, 5).Draw(rt, l+"Any") == 5
 		}
 		return op
 	}
@@ -168,11 +170,12 @@ type c01Obs struct {
 
 func newObs() *c01Obs { return &c01Obs{Async: map[string]int{}, Count: map[int]int{}} }
 
-func invName(ti, fn, id int) string { return fmt.Sprintf("E%02d/f%d:%d", ti, fn, id) }
+func invName(ti, fn, uid, id int) string { return fmt.Sprintf("E%02d/f%d#%d:%d", ti, fn, uid, id) }
 
 // ---- reference registry
 
 type m1Reg struct {
+	uid      int
 	fn       int
 	opts     SubOpts
 	executed bool
@@ -187,6 +190,7 @@ type m1 struct {
 	ambiguous []int // number of candidates at each ambiguous Unsubscribe
 	obs       *c01Obs
 	budget    int
+	nextUID   int
 }
 
 func (m *m1) countRange(ti int) (lo, hi int) {
@@ -206,7 +210,8 @@ func (m *m1) apply(op C01Op) {
 	}
 	switch op.Kind {
 	case "sub":
-		m.regs[op.Type] = append(m.regs[op.Type], &m1Reg{fn: op.Fn, opts: op.Opts})
+		m.regs[op.Type] = append(m.regs[op.Type], &m1Reg{uid: m.nextUID, fn: op.Fn, opts: op.Opts})
+		m.nextUID++
 	case "unsub":
 		var idx []int
 		for i, r := range m.regs[op.Type] {
@@ -264,10 +269,10 @@ func (m *m1) apply(op C01Op) {
 				claimed = append(claimed, r)
 			}
 			if r.opts.Async {
-				m.obs.Async[invName(op.Type, r.fn, op.ID)]++
+				m.obs.Async[invName(op.Type, r.fn, r.uid, op.ID)]++
 				continue
 			}
-			m.obs.Sync = append(m.obs.Sync, invName(op.Type, r.fn, op.ID))
+			m.obs.Sync = append(m.obs.Sync, invName(op.Type, r.fn, r.uid, op.ID))
 			k := m.calls[[2]int{op.Type, r.fn}]
 			m.calls[[2]int{op.Type, r.fn}] = k + 1
 			for _, sop := range m.scripts[[3]int{op.Type, r.fn, k}] {
@@ -355,6 +360,7 @@ func (sc *C01Scenario) Execute(t *testing.T) *core.Outcome {
 		calls := map[[2]int]int{}
 		var cur *c01Obs
 		budget := 5000
+		nextUID := 0
 		var exec func(op C01Op)
 		exec = func(op C01Op) {
 			budget--
@@ -363,9 +369,10 @@ func (sc *C01Scenario) Execute(t *testing.T) *core.Outcome {
 			}
 			switch op.Kind {
 			case "sub":
-				if err := w.Subscribe(op.Type, op.Fn, op.Opts); err != nil {
+				if err := w.SubscribeUID(op.Type, op.Fn, nextUID, op.Opts); err != nil {
 					out.HarnessErr = "subscribe: " + err.Error()
 				}
+				nextUID++
 			case "unsub":
 				e := 0
 				if allTypes[op.Type].Unsub(w, op.Fn) != nil {
@@ -386,21 +393,25 @@ func (sc *C01Scenario) Execute(t *testing.T) *core.Outcome {
 				}
 				cur.Inner = append(cur.Inner, c01Inner{fmt.Sprintf("has E%02d", op.Type), c, c})
 			case "pub":
+				pub := allTypes[op.Type].Pub
+				if op.Any {
+					pub = allTypes[op.Type].PubAny
+				}
 				if op.Bg {
-					allTypes[op.Type].Pub(w, nil, op.ID)
+					pub(w, nil, op.ID)
 				} else {
-					allTypes[op.Type].Pub(w, context.Background(), op.ID)
+					pub(w, context.Background(), op.ID)
 				}
 			}
 		}
-		w.OnInvoke = func(ti, fn int, ctx context.Context, id int) {
+		w.OnInvoke = func(ti, fn, uid int, ctx context.Context, id int) {
 			w.Rec.Add("enter", regKey(ti, fn), id, "")
 			if simrt.Current() != client {
-				cur.Async[invName(ti, fn, id)]++
+				cur.Async[invName(ti, fn, uid, id)]++
 				simrt.Yield(siteHandler)
 				return
 			}
-			cur.Sync = append(cur.Sync, invName(ti, fn, id))
+			cur.Sync = append(cur.Sync, invName(ti, fn, uid, id))
 			k := calls[[2]int{ti, fn}]
 			calls[[2]int{ti, fn}] = k + 1
 			for _, sop := range scripts[[3]int{ti, fn, k}] {
